@@ -15,7 +15,7 @@ PROPERTY = "C18"
 RULE = ("documents: hand-made small documents for every syntactic feature (edits exhaustive over ALL entered node positions), "
         "the repo fixtures, seeded generated executable / type-system / mixed documents (edits on sampled positions); "
         "per document: identity, delete / skip / replace / replace-by-other / in-place mutation at a position, multi-edit scripts, "
-        "chains of 1..3 (plain and Dispatching) members configured through the constructor or by assigning / extending / re-ordering `visitors` afterwards (also from a subclass), sub-tree roots, wrong-kind replacements. "
+        "DispatchingVisitor class hierarchies created per case and used in six orders (base then subclass, reverse, siblings, subclass of subclass); chains of 2..4 recorders where every member in turn raises SkipNode at every node kind (all calls on all other nodes compared); chains of 1..3 (plain and Dispatching) members configured through the constructor or by assigning / extending / re-ordering `visitors` afterwards (also from a subclass), sub-tree roots, wrong-kind replacements. "
         "non-trivial = distinct (document, visitor script) whose visit enters >= 3 nodes")
 ASSUMPTIONS = [
     "the model's `chained vs` is a function of the LIVE `visitors` list at the time of each call (what the documented attribute says); chains are therefore also configured by assigning / extending / re-ordering `visitors` after construction and from subclasses",
@@ -502,11 +502,47 @@ def direct_oracle(ctx, text, kw, fail, exhaustive, big=False):
         O.check_chain(ctx, text, kw, fail, k, cp, dispatching=ctx.rng.random() < 0.5)
     for config in (O.CHAIN_CONFIGS[1:] if exhaustive else (ctx.rng.choice(O.CHAIN_CONFIGS[1:]),)):
         O.check_chain_configured(ctx, text, kw, fail, ctx.rng.choice([2, 3]), config, dispatching=ctx.rng.random() < 0.3)
+    for history in (O.HISTORIES if exhaustive else (ctx.rng.choice(O.HISTORIES),)):
+        O.check_class_history(ctx, text, kw, fail, history, ctx.rng)
+    kinds_pos = {}
+    for q, e in enumerate([e for e in trace if e[-2] == "enter"]):
+        kinds_pos.setdefault(type(e[-1]).__name__, q)          # first position of every node kind
+    sp = sorted(kinds_pos.values()) if exhaustive else sorted(ctx.rng.sample(sorted(kinds_pos.values()), min(len(kinds_pos), 3)))
+    for k in ((2, 3, 4) if exhaustive else (ctx.rng.choice([2, 3, 4]),)):
+        # every node kind with 3 members (every member raising in turn); 2 kinds with 2 and with 4 members
+        O.check_chain_skips(ctx, text, kw, fail, k, sp if (k == 3 or not exhaustive) else ctx.rng.sample(sp, min(len(sp), 2)))
     O.check_dispatching(ctx, text, kw, fail)
+    _register_later(ctx, text, kw, len(entered))
     if exhaustive or ctx.rng.random() < 0.3:
         O.check_subroots(ctx, text, kw, fail)
     if "allow_type_system" not in kw or exhaustive:
         O.check_transforms(ctx, text, kw, fail)
+
+
+def _register_later(ctx, text, kw, n):
+    """history independence: the SAME document, Dispatching visitor and chain (one member skipping at a node) are
+    visited again at the end of the run; the calls must be the ones made now."""
+    if not hasattr(ctx, "later"):
+        return
+    _v = O.V()
+    doc = O.parse_doc(text, kw)
+    tr = []
+    ents = []
+    O.make_recorder(_v.ASTVisitor, 0, ents).visit(doc)
+    x = [e[-1] for e in ents if e[-2] == "enter"][ctx.rng.randrange(n)]
+    disp = O.make_recorder(_v.DispatchingVisitor, 0, tr)
+    chain = _v.ChainedVisitor(O.make_recorder(_v.ASTVisitor, 0, tr), O.make_recorder(_v.DispatchingVisitor, 1, tr, {id(x): ("skip", None)}),
+                              O.make_recorder(_v.ASTVisitor, 2, tr))
+
+    def thunk(v):
+        def run():
+            del tr[:]
+            v.visit(doc)
+            return [[e[0]] + list(O.key(e)) for e in tr]
+        return run
+    for label, v in (("visit:dispatching-recorder", disp), ("visit:chain-with-skipping-member", chain)):
+        t = thunk(v)
+        ctx.later(label, t, t(), {"text": text, "kw": kw})
 
 
 def compare(ctx, text, kw, case, out, ans):
@@ -578,6 +614,12 @@ def replay(ctx, data):
             O.check_dispatching(ctx, text, kw, fail)
         if "edit" in inp and "chain" not in inp:
             O.check_edits(ctx, text, kw, fail, positions=[inp["pos"]])
+        elif "skips" in inp:
+            O.check_chain_skips(ctx, text, kw, fail, inp["chain"], [inp["pos"]])
+        elif "history" in inp:
+            import random
+            for sd in range(8):   # handler subsets are random: the failure does not depend on them
+                O.check_class_history(ctx, text, kw, fail, inp["history"], random.Random(sd), pos=inp["pos"], act=inp["act"])
         elif "config" in inp:
             O.check_chain_configured(ctx, text, kw, fail, inp["chain"], inp["config"])
         elif "chain" in inp:
